@@ -180,7 +180,7 @@ def run_property(modname, tier, seed, workers=None, shard_timeout=None, only=Non
     if only:
         shards = [s for s in shards if only in s['fn'] or only in json.dumps(s['args'])]
     if shard_timeout is None:
-        shard_timeout = getattr(mod, 'SHARD_TIMEOUT', {}).get(tier, 900 if tier == 'quick' else 7200)
+        shard_timeout = getattr(mod, 'SHARD_TIMEOUT', {}).get(tier, 600 if tier == 'quick' else 7200)
     workers = workers or int(os.environ.get('VERIF_WORKERS', '0')) or min(16, os.cpu_count() or 1)
     jobs = [(modname, i, s, tier, seed, shard_timeout) for i, s in enumerate(shards)]
     jobs.sort(key=lambda j: -j[2].get('prio', 0))     # heavy shards start first; reports stay in shard order
